@@ -30,6 +30,8 @@ type c02Case struct {
 	// "elapses" (the read deadline the server has armed, if any, is fired); the peer then carries
 	// on sending the rest of the message and the commands behind it.
 	Stall int `json:"stall"`
+	// LineLimit: Server.MaxLineLength (0 = the default)
+	LineLimit int `json:"line_limit"`
 }
 
 func init() {
@@ -58,7 +60,7 @@ func c02Valid(body []byte) bool {
 }
 
 func c02Run(ctx *core.Ctx) {
-	ctx.Rule = "message bodies assembled from bait command lines and end-of-data look-alikes (LF.LF, LF.CRLF, CRLF.LF, CR.CR, CRLF.CR, CRLF..CRLF, ...), followed by the true CRLF.CRLF and the pipelined commands MAIL(marker)/RSET/NOOP; x backend {read all, read 0/1/half} x {accept, reject} x MaxMessageBytes {none, below, at, above the unstuffed size} x {SMTP, LMTP, LMTP per-recipient} x segmentation {one segment, per line, seeded cuts}; plus the same transfers overtaken by the read timeout (ReadTimeout set, virtual deadline fired right before the first bait line) with the peer carrying on afterwards. Non-trivial: the body contains a look-alike followed by a bait line; distinct by full case."
+	ctx.Rule = "message bodies assembled from bait command lines and end-of-data look-alikes (LF.LF, LF.CRLF, CRLF.LF, CR.CR, CRLF.CR, CRLF..CRLF, ...), followed by the true CRLF.CRLF and the pipelined commands MAIL(marker)/RSET/NOOP; x backend {read all, read 0/1/half} x {accept, reject} x MaxMessageBytes {none, below, at, above the unstuffed size} x {SMTP, LMTP, LMTP per-recipient} x segmentation {one segment, per line, seeded cuts}; a quarter of the cases with MaxLineLength 5000 / 8192 / 70000 instead of the default; plus the same transfers overtaken by the read timeout (ReadTimeout set, virtual deadline fired right before the first bait line) with the peer carrying on afterwards. Non-trivial: the body contains a look-alike followed by a bait line; distinct by full case."
 	ctx.Assumptions = []string{"whether the message is accepted (250/552/554) is not judged here (C06)", "reference end-of-data = first CRLF.CRLF per ref.Unstuff"}
 	var bodies [][]byte
 	for _, la := range c02Lookalikes {
@@ -123,7 +125,11 @@ func c02Run(ctx *core.Ctx) {
 										}
 									}
 								}
+								if idx%4 == 1 {
+									c.LineLimit = []int{8192, 5000, 70000}[(idx/4)%3] // larger than a bufio buffer
+								}
 								emit(c)
+								c.LineLimit = 0
 								if rd == -1 && lim == 0 && sg != "cuts" {
 									// the same transfer overtaken by the read timeout right before its first
 									// bait line (or in the middle of the body)
@@ -159,10 +165,13 @@ func c02Exec(ctx *core.Ctx, c c02Case) {
 			nontrivial = true
 		}
 	}
-	ctx.Eval(fmt.Sprintf("%q|%d|%v|%d|%s|%s|%v|%d", c.Body, c.Read, c.Reject, c.Limit, c.Mode, c.Seg, c.Cuts, c.Stall), nontrivial)
+	ctx.Eval(fmt.Sprintf("%q|%d|%v|%d|%s|%s|%v|%d", c.Body, c.Read, c.Reject, c.Limit, c.Mode, c.Seg, c.Cuts, c.Stall)+fmt.Sprint("|", c.LineLimit), nontrivial)
 
 	rig := newRig(c.Mode, func(s *smtp.Server) {
 		s.MaxMessageBytes = c.Limit
+		if c.LineLimit > 0 {
+			s.MaxLineLength = c.LineLimit
+		}
 		if c.Stall > 0 {
 			s.ReadTimeout = time.Hour // virtual clock: expires only when the harness fires it
 		}
@@ -244,7 +253,7 @@ func c02Exec(ctx *core.Ctx, c c02Case) {
 	ctx.Add("backend_events", countBackendEvents(ev))
 	ctx.Add("replies_parsed", int64(len(head)+len(tail)))
 	fail := func(sig, msg string) {
-		ctx.Violate(sig, msg+fmt.Sprintf(" [body=%q read=%d reject=%v limit=%d mode=%s seg=%s cuts=%v]", c.Body, c.Read, c.Reject, c.Limit, c.Mode, c.Seg, c.Cuts), c, witness(rig.Log, append(head, tail...)))
+		ctx.Violate(sig, msg+fmt.Sprintf(" [body=%q read=%d reject=%v limit=%d mode=%s seg=%s cuts=%v stall=%d linelimit=%d]", c.Body, c.Read, c.Reject, c.Limit, c.Mode, c.Seg, c.Cuts, c.Stall, c.LineLimit), c, witness(rig.Log, append(head, tail...)))
 	}
 	// (1) no octet of the message executed as a command
 	sawData := false
